@@ -43,6 +43,7 @@ def keyName (k : JsKey) (inner : Option String) : String :=
   match k with
   | .prim i => "P" ++ toString i
   | .obj 2 => "V2"
+  | .obj 12 => "O2" | .obj 13 => "O3" | .obj 14 => "O4"
   | .obj i => "O" ++ toString i
   | .objU i => "U" ++ toString i
   | .errObj i _ => "R" ++ toString i
@@ -62,7 +63,8 @@ def goErrName : GoErr → String
 
 def valByName : String → Option JsVal
   | "P1" => some (.prim 1) | "P2" => some (.prim 2) | "P3" => some (.prim 3) | "P4" => some (.prim 4)
-  | "O1" => some (.obj 1)
+  | "O1" => some (.obj 1) | "O2" => some (.obj 12) | "O3" => some (.obj 13) | "O4" => some (.obj 14)
+  | "P5" => some (.prim 5) | "P6" => some (.prim 6)
   | "R1" => some (.errObj 1 .error) | "R2" => some (.errObj 2 .typeError) | "R3" => some (.errObj 3 .myErr)
   | "G1" => some (.goError 1 (.plain 1))
   | "G3" => some (.goError 3 (.wrap 3 (.custom 2)))
